@@ -149,3 +149,19 @@ Proof.
   split; [vm_compute; reflexivity|]. split; [vm_compute; reflexivity|].
   vm_compute. discriminate.
 Qed.
+
+(* attribute lookup on a half-built Endpoint *)
+Lemma clone_lookup_total_l fuel th n :
+  (2 <= fuel)%nat -> endpoint_getattr true false th fuel n = AttrErr.
+Proof.
+  intro H. destruct fuel as [|[|f]]; try lia. destruct n; reflexivity.
+Qed.
+
+Lemma clone_lookup_unguarded_l fuel th n : endpoint_getattr false false th fuel n = Recursion.
+Proof.
+  revert n. induction fuel as [|f IH]; intro n; [reflexivity|].
+  cbn. rewrite IH. reflexivity.
+Qed.
+
+Lemma clone_lookup_complete_l fuel th : endpoint_getattr true true th (S fuel) NPlain = if th then Found else AttrErr.
+Proof. reflexivity. Qed.
